@@ -13,6 +13,11 @@ CONSTANTS
   AllowAbort = TRUE
   ForeignRelease = TRUE
   OrderedArrival = TRUE
+  AllowPause = FALSE
+  AllowIoError = FALSE
+  AllowResume = FALSE
+  ForgetUncreated = TRUE
+  MaxInterrupts = 3
 INVARIANT TypeOK
 INVARIANT Inside
 INVARIANT RegularName
